@@ -72,8 +72,12 @@ def run(ck, facts):
     # ---------------- R1
     gens = [("js::gen::TyGenContext::generate_method", "js"), ("dart::TyGenContext::gen_method_info", "dart"), ("kotlin::TyGenContext::gen_method", "kotlin"),
             ("nanobind::ty::TyGenContext::gen_method_info", "nanobind")]
+    import order as _order
+
+    def _has_visitor(g_):
+        return any(n.get("k") == "letst" and n.get("init") and C.strip(n["init"]).get("k") == "mcall" and C.strip(n["init"]).get("m") == "borrowing_param_visitor" for n in C.walk(C.fn_body(g_)))
     for path, label in gens:
-        f = tool.fn(path)
+        f = _order.holder(tool, tool.fn(path), _has_visitor)     # the generator, or the phase function it delegates the borrow analysis to
         body = C.fn_body(f)
         vis = [n for n in C.walk(body) if n.get("k") == "letst" and n.get("init") and C.strip(n["init"]).get("k") == "mcall" and C.strip(n["init"]).get("m") == "borrowing_param_visitor"]
         if len(vis) != 1:
@@ -185,8 +189,10 @@ def run(ck, facts):
         if not bm:
             # nanobind style: the ParamBorrowInfo returned by every visit is collected and turned into keep_alive arguments
             coll = [n for n in C.walk(body) if n.get("k") == "letst" and n.get("init") and any(v is x for v in visits for x in C.walk(n["init"]))]
-            names = {n["pat"].get("n") for n in coll}
-            used_later = any(x.get("k") == "local" and x.get("n") in names for n in C.walk(body) if n.get("k") == "mcall" and n.get("m") in ("extend", "push") and any(y.get("k") == "local" and "lifetime" in (y.get("n") or "") for y in C.walk(n["recv"])) for x in C.walk(n))
+            ids_ = {bid for n in coll for bid in C.pat_bind_ids(n["pat"])}
+            # (the collected infos feed the list of `nb::keep_alive<..>` arguments, whatever that list is called)
+            used_later = any(x.get("k") == "local" and x.get("id") in ids_ for n in C.walk(body) if n.get("k") == "mcall" and n.get("m") in ("extend", "push") and
+                             any("keep_alive" in l_ for l_ in C.str_lits(n)) for x in C.walk(n))
             ok_order = bool(coll) and used_later
         if True:
             ck.expect(ok_order, "R1", label + "/borrow_map-after-visits", "", "borrow_map() of the visitor is not consumed after all visit_param calls (%d consumers)" % len(bm), C.loc(f))
@@ -466,7 +472,15 @@ def run(ck, facts):
     msgs = set()
     for p in pushes:
         msgs |= {s[:40] for s in C.str_lits(p["a"][0])}
-    loop = next((n for n in C.walk(body) if n.get("k") == "for" and any(x.get("k") == "local" and x.get("n") == "linked" for x in C.walk(n["iter"]))), None)
+    vt_defs = dict(flow.defs_of(vt))
+
+    def is_linked(x):
+        # a local holding the result of `link_lifetimes(..)` (whatever it is called)
+        if x.get("k") != "local":
+            return False
+        d_ = vt_defs.get(x.get("id"))
+        return bool(d_) and d_[0] == "expr" and any(y.get("k") == "mcall" and y.get("m") == "link_lifetimes" for y in C.walk(d_[1]))
+    loop = next((n for n in C.walk(body) if n.get("k") == "for" and any(is_linked(x) for x in C.walk(n["iter"]))), None)
     itm = C.strip(loop["iter"]).get("m") if loop and C.strip(loop["iter"]).get("k") == "mcall" else None
     ck.expect(itm == "lifetimes_all", "R4", "validate_ty_in_method/includes-reference-lifetime", "iterates linked.lifetimes_all()",
               "validate_ty_in_method iterates linked.%s(): the reference's own lifetime (`&'a T<'b>` => 'b: 'a) is no longer checked, only bounds declared on the type definition" % itm, C.loc(vt))
@@ -497,7 +511,7 @@ def run(ck, facts):
         ck.bad("R5", "zip-floor", "only %d zip pairings found in diplomat_core::hir (2 counted: lifetimes_def_only, lifetimes_all)" % nz)
     nb = tool.fn("nanobind::ty::TyGenContext::gen_method_info")
     sup = None
-    for iff in C.walk(C.fn_body(nb)):
+    for iff in [x for g_ in C.fns_inl(tool, nb, 2) for x in C.walk(C.fn_body(g_))]:
         if iff.get("k") != "if" or not any("keep_alive" in l for l in C.str_lits(iff["t"]) + [m_.get("src", "") for m_ in C.walk(iff["t"]) if m_.get("k") == "macro"]):
             continue
         for n in C.walk(iff["c"]):
